@@ -376,6 +376,7 @@ class Program:
                 fm.setdefault(raw['name'], raw)
             self._funcs[tu] = fm
         self._cache = {}
+        PROGRAM[0] = self
         self.enums = {}
         self.enum_types = {}
         for tu, d in self.facts.items():
@@ -442,6 +443,52 @@ class Program:
 
     def variant_tus(self):
         return [t for t in self.tus() if re.search(r'__mb_mgr_(sse|avx2|avx512)_t\d\.c$', t)]
+
+    # ---- pure expression functions (predicates factored out of a condition)
+    def pure_expr(self, name, tu=None):
+        """(params, return expression) if `name` is a function whose whole body is `return <expr>;` with no call, assignment
+        or declaration (in tu, else in any TU that defines it); None otherwise"""
+        key = ('pure', name)
+        if key not in self._cache:
+            res = None
+            for t in ([tu] if tu and self.has(tu, name) else [x for x in self.tus() if self.has(x, name)][:1]):
+                f = self.func(t, name)
+                evs = [ev for _, _, ev in f.events()]
+                if len(evs) == 1 and evs[0]['k'] == 'return' and evs[0].get('val') is not None and not calls_in(evs[0]['val']):
+                    res = ([p_['name'] for p_ in f.params], evs[0]['val'])
+            self._cache[key] = res
+        return self._cache[key]
+
+
+PROGRAM = [None]
+
+
+def subst(e, env):
+    """copy of expression e with references to names in env replaced by the given expression trees"""
+    if isinstance(e, list):
+        return [subst(x, env) for x in e]
+    if not isinstance(e, dict):
+        return e
+    if e.get('k') == 'ref' and e.get('n') in env:
+        return env[e['n']]
+    return {k: (subst(v, env) if isinstance(v, (dict, list)) else v) for k, v in e.items()}
+
+
+def inline_pure(e, depth=0):
+    """e with calls to pure expression functions replaced by their (parameter-substituted) return expression"""
+    P = PROGRAM[0]
+    if P is None or depth > 4:
+        return e
+    if isinstance(e, list):
+        return [inline_pure(x, depth) for x in e]
+    if not isinstance(e, dict):
+        return e
+    if e.get('k') == 'call' and e.get('fn'):
+        pe = P.pure_expr(e['fn'])
+        if pe is not None and len(pe[0]) == len(e.get('a', [])):
+            args = [inline_pure(a, depth + 1) for a in e['a']]
+            return inline_pure(subst(pe[1], dict(zip(pe[0], args))), depth + 1)
+    return {k: (inline_pure(v, depth) if isinstance(v, (dict, list)) else v) for k, v in e.items()}
 
 
 def flat_fields(rec, prefix='', base=0):
